@@ -526,6 +526,37 @@ fn check_scan(c: &ScanCase, obs: &mut Obs) -> Check {
             w.0, w.1, w.2, w.3.len(), w.3.first().map(|f| f.map(f32::from_bits))
         );
     }
+    // the varyings' own stepping iterator (`Vary::vary`): same contract, and exactly n items when a count is given
+    {
+        let (v0, st) = ((c.l[0][0].0, (c.l[0][1].0, c.l[0][2].0)), (c.r[0][0].0 * 0.125, (c.r[0][1].0 * 0.125, c.r[0][2].0)));
+        let n = 3 + 5 * c.k as u32;
+        let bits = |v: (f32, (f32, f32))| [v.0.to_bits(), v.1 .0.to_bits(), v.1 .1.to_bits()];
+        let all: Vec<[u32; 3]> = v0.vary(st, Some(n)).map(bits).collect();
+        ensure!(all.len() == n as usize, "vary-iterator-inconsistent", "vary(step, Some({n})) yields {} items", all.len());
+        let got: Vec<[u32; 3]> = match c.mode {
+            0 => v0.vary(st, Some(n)).skip(k).map(bits).collect(),
+            1 => v0.vary(st, Some(n)).step_by(k + 1).map(bits).collect(),
+            2 => {
+                let mut it = v0.vary(st, Some(n));
+                let mut v = vec![];
+                while let Some(x) = it.nth(k) {
+                    v.push(bits(x));
+                }
+                v
+            }
+            _ => v0.vary(st, Some(n)).last().map(bits).into_iter().collect(),
+        };
+        let want: Vec<[u32; 3]> = match c.mode {
+            0 => all.iter().skip(k).cloned().collect(),
+            1 => all.iter().step_by(k + 1).cloned().collect(),
+            2 => all.iter().skip(k).step_by(k + 1).cloned().collect(),
+            _ => all.last().cloned().into_iter().collect(),
+        };
+        ensure!(got == want, "vary-iterator-inconsistent", "(f32,(f32,f32))::vary(.., Some({n})) advanced by {how} with k = {k} differs from plain iteration: {} vs {} items", got.len(), want.len());
+        // unbounded: the first n items are the same
+        let inf: Vec<[u32; 3]> = v0.vary(st, None).take(n as usize).map(bits).collect();
+        ensure!(inf == all, "vary-iterator-inconsistent", "vary(step, None).take({n}) differs from vary(step, Some({n}))");
+    }
     obs.class(["scan:skip", "scan:step_by", "scan:nth", "scan:last"][c.mode as usize]);
     if all.len() >= 2 && k >= 1 {
         obs.nontrivial(hash_of(&(c.y, c.l, c.r, c.mode, c.k)));
